@@ -41,6 +41,12 @@ class InvalidStateName(ValueError):
     pass
 
 
+class _DurationTunable(tunable):
+    """The duration tunable that is created automatically for a timed state"""
+
+    __slots__ = ()
+
+
 class _State:
     def __init__(
         self,
@@ -118,12 +124,20 @@ class _State:
         # make durations tunable
         if self.duration is not None:
             duration_attr = name + "_duration"
-            # don't create it twice (in case of inheritance overriding)
-            if getattr(owner, duration_attr, None) is None:
+            # don't create it twice, and never replace a tunable defined by
+            # the user -- but when a subclass redefines an inherited timed
+            # state, its own duration must become the default
+            existing = getattr(owner, duration_attr, None)
+            if existing is None or (
+                isinstance(existing, _DurationTunable)
+                and duration_attr not in owner.__dict__
+            ):
                 setattr(
                     owner,
                     duration_attr,
-                    tunable(self.duration, writeDefault=False, subtable="state"),
+                    _DurationTunable(
+                        self.duration, writeDefault=False, subtable="state"
+                    ),
                 )
 
 
@@ -139,6 +153,9 @@ class _StateData:
         self.ran = False
         self.run = wrapper.run
         self.must_finish = wrapper.must_finish
+        # only timed states expire (an untimed state overriding an inherited
+        # timed state must not pick up the inherited duration tunable)
+        self.timed = wrapper.duration is not None
 
         if hasattr(wrapper, "next_state"):
             self.next_state = wrapper.next_state
@@ -640,8 +657,10 @@ class StateMachine:
             if initial_call:
                 state.ran = True
                 state.start_time = new_state_start
-                state.expires = new_state_start + getattr(
-                    self, state.duration_attr, 0xFFFFFFFF
+                state.expires = new_state_start + (
+                    getattr(self, state.duration_attr, 0xFFFFFFFF)
+                    if state.timed
+                    else 0xFFFFFFFF
                 )
 
                 if self.VERBOSE_LOGGING:
